@@ -135,6 +135,8 @@ def check(run):
                 bad("not-the-same-type-after-reconversion", d2, "excluded_literal_set_materialised_as_negation")
             elif has_optundef:
                 bad("not-the-same-type-after-reconversion", d2, "optional_property_comes_back_as_explicit_undefined")
+            elif any(nd[0] == "AllOf" for t in out_types for nd in semref.nodes(t)):
+                bad("not-the-same-type-after-reconversion", d2, "materialised_intersection_of_objects_does_not_convert_back")
             else:
                 bad("not-the-same-type-after-reconversion", d2)
         sem = semref.Sem(env + gen + [[o["root_name"], root]], runtime=True)
